@@ -6,5 +6,5 @@ CONSTANTS
   Gap = 2
   None <- NoneV
   Family = "two"
-INVARIANT NoKnown
+INVARIANT RequeueAllBreaks
 CHECK_DEADLOCK FALSE
